@@ -407,6 +407,7 @@ def main(argv=None):
     tasks = [(check_id, args.tier, seed, lo, min(lo + chunk, total), 97) for lo in range(0, total, chunk)]
     results = {}
     harness = []
+    aborted_early = False
     try:
         if jobs == 1:
             for t in tasks:
@@ -416,9 +417,17 @@ def main(argv=None):
             ctx = multiprocessing.get_context("fork")
             with ProcessPoolExecutor(max_workers=jobs, mp_context=ctx) as ex:
                 futs = [ex.submit(_work, t) for t in tasks]
+                nfail = 0
                 for fu in as_completed(futs, timeout=7 * 3600):
                     lo, agg = fu.result()
                     results[lo] = agg
+                    nfail += len(agg["fail"])
+                    if nfail >= 300:
+                        # plenty of evidence of a violation: do not burn the rest of the budget
+                        for f2 in futs:
+                            f2.cancel()
+                        aborted_early = True
+                        break
     except Exception as e:
         print(f"HARNESS-ERROR worker pool: {type(e).__name__}: {e}")
         return 2
